@@ -689,6 +689,11 @@ fn plan_base(prop: &str) -> Vec<Item> {
                 v.push(it("repoll", &format!("pool=1,stop=1,fin={}", fin), Some(2), 3));
                 v.push(it("repoll", &format!("pool=2,stop=1,fin={}", fin), Some(1), 2));
             }
+            // an operation queued behind the awaited one depends on the awaiting task having its result (seed C08-k, seen from C07)
+            v.push(it("fd_result", "pool=0,mode=0,dep=1", Some(3), 4));
+            v.push(it("fd_result", "pool=0,mode=0,dep=1,gated=0", Some(3), 4));
+            v.push(it("fd_result", "pool=1,mode=0,dep=1", Some(2), 3));
+            v.push(it("fd_result", "pool=1,mode=0,dep=1,sat=1", Some(1), 2));
             for mode in 0..5 {
                 for pool in [0, 1, 2] {
                     v.push(it("fd_result", &format!("pool={},mode={}", pool, mode), Some(if pool == 2 { 1 } else { 2 }), if pool == 2 { 2 } else { 3 }));
